@@ -157,6 +157,70 @@ theorem C22_rejected_noop (n : Node) (op : Op) (key : Option Key)
 
 example : (handle ⟨[List.replicate 16 1], some [List.replicate 16 1], true⟩ .install (some [1, 2, 3])).2 ≠ .ok := by decide
 
+/-- **The first accepted request creates the file** — whatever the file held before, also when it did not exist
+(`n.file = none`: the keyring was handed over in memory and the configured file is not yet written): a request
+answered `ok`, a no-op one included (a key already on the ring, an absent key removed, the primary used again),
+leaves a file that holds exactly the ring. -/
+theorem C22_ok_writes_file (n : Node) (op : Op) (key : Option Key) (hf : n.hasFile = true)
+    (hok : (handle n op key).2 = .ok) :
+    (handle n op key).1.file = some (handle n op key).1.ring ∧ (handle n op key).1.hasFile = true := by
+  unfold handle at hok ⊢
+  cases key with
+  | none => simp at hok
+  | some k =>
+    simp only at hok ⊢
+    by_cases he : n.ring.isEmpty
+    · simp [he] at hok
+    · simp only [he, Bool.false_eq_true, ↓reduceIte] at hok ⊢
+      cases op with
+      | install =>
+        simp only at hok ⊢
+        cases hres : addKey n.ring k with
+        | error e =>
+          simp only [hres] at hok
+          subst hok
+          exfalso
+          simp only [addKey] at hres
+          split at hres
+          · simp at hres
+          · split at hres <;> simp at hres
+        | ok r' => simp [writeKeyringFile, hf]
+      | use =>
+        simp only at hok ⊢
+        cases hres : useKey n.ring k with
+        | error e =>
+          simp only [hres] at hok
+          subst hok
+          exfalso
+          simp only [useKey] at hres
+          split at hres <;> simp at hres
+        | ok r' => simp [writeKeyringFile, hf]
+      | remove =>
+        simp only at hok ⊢
+        cases hres : removeKey n.ring k with
+        | error e =>
+          simp only [hres] at hok
+          subst hok
+          exfalso
+          simp only [removeKey] at hres
+          split at hres
+          · simp at hres
+          · split at hres
+            · simp at hres
+            · split at hres <;> simp at hres
+        | ok r' => simp [writeKeyringFile, hf]
+
+/-- **…and from then on the file tracks the ring** (any later requests, accepted or rejected). -/
+theorem C22_file_tracks_after_first_ok (n : Node) (op : Op) (key : Option Key) (hring : RingOK n.ring)
+    (hf : n.hasFile = true) (hok : (handle n op key).2 = .ok) (ops : List (Op × Option Key)) :
+    (run n ((op, key) :: ops)).file = some (run n ((op, key) :: ops)).ring := by
+  have h1 := C22_ok_writes_file n op key hf hok
+  exact (C22_file_tracks ops _ (handle_RingOK n op key hring) h1.2 h1.1).1
+
+-- a no-op install on a node whose file does not exist yet is answered ok and writes the file
+example : (handle ⟨[List.replicate 16 1], none, true⟩ .install (some (List.replicate 16 1))).2 = .ok ∧
+    (handle ⟨[List.replicate 16 1], none, true⟩ .install (some (List.replicate 16 1))).1.file = some [List.replicate 16 1] := by decide
+
 /-- Without a configured keyring file nothing is ever written. -/
 theorem C22_no_file (n : Node) (op : Op) (key : Option Key) (hf : n.hasFile = false) :
     (handle n op key).1.file = n.file := by
